@@ -23,11 +23,14 @@ DRIVER = 'drv_c12'
 HARNESS = 'c12.cpp'
 SOURCES = ['src/transform/SmartRotation3D.cpp', 'src/geometry/Pose3D.cpp', 'src/geometry/Pose2D.cpp',
            'src/geometry/Position3D.cpp', 'src/geometry/Ellipse.cpp', 'src/regression/leastsquares/LeastSquares.cpp']
-PROOF_MODULES = ['RomeaProofs.Properties.C12', 'RomeaProofs.Properties.C12Solver', 'RomeaProofs.Bridge.C12', 'RomeaProofs.Bridge.C12Cor']
+PROOF_MODULES = ['RomeaProofs.Properties.C12', 'RomeaProofs.Properties.C12Solver', 'RomeaProofs.Bridge.C12', 'RomeaProofs.Bridge.C12Cor',
+                 'RomeaProofs.Bridge.C12PoseDefs'] + ['RomeaProofs.Bridge.C12Pose' + _l for _l in 'ABCDEFG'] + [
+                 'RomeaProofs.Bridge.C12Pose', 'RomeaProofs.Bridge.C12PoseCor']
 TRUSTED = ['tools/cxx2lean.py translates SmartRotation3D\'s default constructor, three-angle constructor and init (R_ and the three dRdAngle '
            'matrices) from the working tree into RomeaModel/Generated/SrcC12.lean on every run; RomeaProofs/Bridge/C12*.lean prove the four '
            'matrices equal to the model\'s smartInit entry by entry for every scalar type (Eigen Identity()/Zero() read as literal coefficients, '
-           'the fixed-size product as (a0*b0 + a1*b1) + a2*b2); Pose3D.cpp operator* (the 6x6 Jacobian) is NOT translated',
+           'the fixed-size product as (a0*b0 + a1*b1) + a2*b2); Pose3D.cpp operator*(Affine3d, Pose3D) is translated too (affine.rotation() as an '
+           'oracle, std::fmod mapped to the model\'s fmod) and Bridge/C12Pose.lean proves its 42 returned scalars equal to the model\'s poseMul',
            'finite differences (central, Richardson, long double) of the implementation\'s own maps are computed by '
            'harness/c12.cpp and judged by tools/props/c12.py with explicit tolerances',
            'Eigen::Affine3d::rotation() and the inverse of J^T J (LDLT / JacobiSVD) are model parameters with contracts; '
@@ -886,12 +889,19 @@ def oracle_history(case, out, stats):
 _SIG = '(const double &, const double &, const double &)'
 BRIDGE_SPEC = {
     'id': 'C12',
-    'sources': ['src/transform/SmartRotation3D.cpp'],
+    'sources': ['src/transform/SmartRotation3D.cpp', 'src/geometry/Pose3D.cpp'],
+    'imports': ['RomeaModel.Pose'],
+    # std::fmod (inside rotation3DToEulerAngles -> between0And2Pi) is not in Lean's core: it is mapped to the fmod of the model this
+    # function is bridged to (`Romea.Pose.fmod`: two exact reduction steps), as `Romea.Rotation.fmod` is in the C10 spec
+    'externs': {'fmod': {'lean': 'Romea.Pose.fmod', 'classes': ['Add', 'Sub', 'LT', 'DecidableLT', 'NatCast', 'Trans']}},
+    'transform_oracles': ['rotation'],      # `affine.rotation()`: the model's `rotOf` parameter
     'functions': [
         {'cxx': 'SmartRotation3D::SmartRotation3D', 'sig': _SIG, 'outputs': ['R_'], 'suffix': '_R'},
         {'cxx': 'SmartRotation3D::SmartRotation3D', 'sig': _SIG, 'outputs': ['dRdAngleX_'], 'suffix': '_dRdX'},
         {'cxx': 'SmartRotation3D::SmartRotation3D', 'sig': _SIG, 'outputs': ['dRdAngleY_'], 'suffix': '_dRdY'},
         {'cxx': 'SmartRotation3D::SmartRotation3D', 'sig': _SIG, 'outputs': ['dRdAngleZ_'], 'suffix': '_dRdZ'},
+        # phase 5 (builder b6): `operator*(const Eigen::Affine3d &, const Pose3D &)` of src/geometry/Pose3D.cpp, `affine.rotation()` as an oracle
+        {'cxx': 'operator*', 'sig': '(const Eigen::Affine3d &, const romea::core::Pose3D &)', 'suffix': '_pose'},
     ],
 }
 
